@@ -55,6 +55,8 @@ def classOf (e : String) : Option LockClass :=
   else if e = "&rq->refmutex" then some rqref
   else if ["&realm->refmutex", "&r->refmutex"].contains e then some realmref
   else if e = "&h->mutex" then some htab
+  else if e = "&lock@fn" then some leaf          -- as listed by the extractor (function not resolved)
+  else if e = "lock@fn" then some sslio
   else if e.startsWith "&lock@" then some leaf
   else if e.startsWith "lock@" then some sslio
   else none
